@@ -318,8 +318,10 @@ class L1Run:
                             pp.vel_rev = True
                         else:
                             pp.config = (tag, i - cut)
-                        if self.accepted_counter % 2:
-                            pp.vpot, pp.ekin = float(pp.order[0]) + 0.125, 0.5
+                        # energies on every frame (counter % 3 == 1), on some frames only (== 2: none on the
+                        # first frame and on every third one), or on none (== 0)
+                        if self.accepted_counter % 3 == 1 or (self.accepted_counter % 3 == 2 and i % 3 != 0):
+                            pp.vpot, pp.ekin = float(pp.order[0]) + 0.125 + 0.5 * i, 0.5 + 0.25 * i
                 trial.status = "ACC"
             else:
                 trial = old
